@@ -20,7 +20,7 @@
     item of [items] for the value [a] with the formatter and runs [unambiguous_ws_b]. *)
 From Coq Require Import ZArith List Bool.
 From V Require Import Base.Int Base.IO Base.Utf8 Model.Scan Model.Items Model.Parse
-  Proofs.Utf8 Proofs.Scan Proofs.C13 Proofs.C13Reads Proofs.C13Fmt Proofs.C13Examples Proofs.C13Names Proofs.C13Digits Proofs.C13Safe Proofs.C13Time Proofs.C13Date Proofs.C13OneWay Proofs.C13View Proofs.C13DateTime Proofs.C13DateForms Proofs.C13TimeForms.
+  Proofs.Utf8 Proofs.Scan Proofs.C13 Proofs.C13Reads Proofs.C13Fmt Proofs.C13Examples Proofs.C13Names Proofs.C13Digits Proofs.C13Safe Proofs.C13Time Proofs.C13Date Proofs.C13OneWay Proofs.C13View Proofs.C13DateTime Proofs.C13DateForms Proofs.C13TimeForms Proofs.C13Zoned.
 From V Require Model.Parsed Model.Format Model.Strftime Model.Time Model.DateTime Spec.StrftimeDoc.
 Import ListNotations.
 Open Scope Z_scope.
@@ -389,6 +389,37 @@ Example C13_time_forms_inhabited :
   trunc_frac 6 (Model.Time.mk_time 2094 26490708) = Model.Time.mk_time 2094 26490000.
 Proof. exact time_forms_inhabited. Qed.
 Print Assumptions C13_time_forms_inhabited.
+
+(** ** format_parse_roundtrip END TO END for DateTime<FixedOffset> with "%Y-%m-%dT%H:%M:%S%z"
+    ([DTZ_FMT false]) and "%Y-%m-%dT%H:%M:%S%:z" ([DTZ_FMT true]).  [valid_dtz yu ou z]: the UTC date
+    is the NaiveDate (yu, ou), the time is a time of day (leap second on :59 allowed), the offset is
+    a whole number of minutes strictly inside +-24 h (the two items print hours and minutes only:
+    other offsets are rounded) and the wall-clock date is itself a NaiveDate (fails only on the
+    first / last day of the range, C09's recorded finding).  Parsing the formatted text returns the
+    value truncated to whole seconds with the same offset -- through format_with_items
+    (overflowing_naive_local, the offset's Display name), formatter, reader and Parsed::to_datetime
+    (date, time, timestamp cross-check with the offset, east_opt, from_local_datetime). *)
+Theorem C13_dtz_roundtrip : forall yu ou z colon, valid_dtz yu ou z ->
+  exists a text,
+    Model.Format.fa_of_dtz z = Val a /\
+    Model.Format.write_items a (DTZ_FMT colon) [] = Model.Format.fok text /\
+    (let+ p := parse Model.Parsed.parsed_new text (DTZ_FMT colon) in pr_of (Model.Parsed.to_datetime p)) = pok (trunc_dtz z).
+Proof. exact dtz_roundtrip. Qed.
+Print Assumptions C13_dtz_roundtrip.
+
+Theorem C13_dtz_parse_from_str : forall yu ou z colon, valid_dtz yu ou z ->
+  exists a text,
+    Model.Format.fa_of_dtz z = Val a /\
+    Model.Format.delayed_display a (Model.Strftime.sf_new (dtz_format colon)) = Model.Format.fok text /\
+    dt_parse_from_str text (dtz_format colon) = pok (trunc_dtz z).
+Proof. exact dtz_parse_from_str. Qed.
+Print Assumptions C13_dtz_parse_from_str.
+
+Example C13_dtz_roundtrip_inhabited :
+  valid_dtz 2016 366 (Model.DateTime.mk_dtz (Model.DateTime.mk_ndt (Proofs.C08Sweeps.mkdate 2016 366)
+                        (Model.Time.mk_time 86399 1500000000)) (-34200)).
+Proof. exact dtz_roundtrip_inhabited. Qed.
+Print Assumptions C13_dtz_roundtrip_inhabited.
 
 (* the writes of the reader run through the real setters: whenever every recognised write puts a
    field of the record [F] (within the setter's range) the setters succeed from any record below
